@@ -125,7 +125,7 @@ def discharged_locally(prog, fn, b, kind):
     on the same value, or the index is guarded by a comparison with len()."""
     body = fn.body
     t = body.term(b)
-    if kind in ("bounds", "divzero", "remzero"):
+    if kind in ("bounds", "divzero", "remzero", "shift"):
         ok, why = bounds.prove_site(prog, fn, b, t)
         return ("proved: " + why) if ok else None
     if kind == "index":
@@ -425,14 +425,14 @@ def r_audit(ctx, rule, scope):
                               "audited table nor in the frozen baseline - an index past the end aborts the %s "
                               "instead of returning an error" % (why, scope), {"function": fn.path})
                 continue
-            if kind in ("bounds", "divzero", "remzero"):
+            if kind in ("bounds", "divzero", "remzero", "shift"):
                 _ok, why = bounds.prove_site(prog, fn, b, fn.body.term(b))
                 ctx.violation(rule, okey, loc,
                               "the %s of this expression can fail: the asserted condition %s, and the site is not "
                               "in the audited table nor in the frozen baseline - an index past the end / a zero "
                               "divisor here aborts the %s instead of returning an error"
                               % ({"bounds": "bounds check", "divzero": "division zero check",
-                                  "remzero": "remainder zero check"}[kind], why, scope), {"function": fn.path})
+                                  "remzero": "remainder zero check", "shift": "shift amount check (`1 << n` with n not below the bit width)"}[kind], why, scope), {"function": fn.path})
                 continue
             ctx.violation(rule, okey, loc,
                           "explicit panic site (%s) reachable from the %s entry points is not in the audited "
